@@ -12,9 +12,11 @@ import (
 	"net/http/httptest"
 	"os"
 	"os/exec"
+	"reflect"
 	"sort"
 	"strings"
 	"sync"
+	"sync/atomic"
 	"time"
 
 	jsonrpc "github.com/filecoin-project/go-jsonrpc"
@@ -28,6 +30,16 @@ type V struct {
 	mu sync.Mutex
 	// token ↦ context captured inside Block
 	ctxs map[int]context.Context
+	// set by Close: a service object with a shutdown method, as applications have; nobody calls it here
+	closed bool
+}
+
+// Close shuts the service down: afterwards Sum answers 0.  Only the application may decide to call it.
+func (v *V) Close() error {
+	v.mu.Lock()
+	v.closed = true
+	v.mu.Unlock()
+	return nil
 }
 
 type Snap struct {
@@ -47,7 +59,14 @@ func (v *V) Block(ctx context.Context, tok int) string {
 
 // Sum is the probe method of the "other connections are still served" observation: it is not logged, so
 // it never shows up among the invocations attributed to the case under test.
-func (v *V) Sum(a, b int) int { return a + b }
+func (v *V) Sum(a, b int) int {
+	v.mu.Lock()
+	defer v.mu.Unlock()
+	if v.closed {
+		return 0
+	}
+	return a + b
+}
 
 // Panic panics with a payload chosen by kind (C13).
 func (v *V) Panic(ctx context.Context, kind int) (int, error) {
@@ -134,7 +153,11 @@ func (v *V) Snapshot() Snap {
 // ServerMain is the body of the "victim-server" subcommand.
 func ServerMain() {
 	l := &api.Log{}
-	s := jsonrpc.NewServer(jsonrpc.WithMaxRequestSize(1 << 20))
+	var traced int64
+	// a tracer is configured, as in a deployment that logs its calls: it sees every call, also panicking ones
+	s := jsonrpc.NewServer(jsonrpc.WithMaxRequestSize(1<<20), jsonrpc.WithTracer(func(method string, params []reflect.Value, results []reflect.Value, err error) {
+		atomic.AddInt64(&traced, 1)
+	}))
 	s.Register("T", &api.T{L: l})
 	s.Register("V", &V{L: l, ctxs: map[int]context.Context{}})
 	ts := httptest.NewServer(s)
